@@ -365,17 +365,52 @@ def run_gather_bounded(ctx):
                         want = ("F", (("v2",), _spec(t, val)[1]), (("b", _spec(t, val)[1]),))
                 except TypeError:
                     continue  # unhashable set/dict members are rejected by Python itself
-                r = uberjob.run(plan, output=c, max_workers=workers, progress=None)
+                try:
+                    r = uberjob.run(plan, output=c, max_workers=workers, progress=None)
+                except Exception as e:  # noqa: BLE001  (a failure of the real code on a legal input is a finding, not a crash of the checker)
+                    r = ("raised", (repr(e),), ())
                 checked += 1
                 ok = r[0] == "F" and len(r[1]) == len(want[1]) and all(_same(x, y) for x, y in zip(r[1], want[1])) and \
                     [k for k, _ in r[2]] == [k for k, _ in want[2]] and all(_same(x, y) for (_, x), (_, y) in zip(r[2], want[2]))
                 if not ok and len(bad) < 3:
                     bad.append((shape, repr(t)[:120], repr(r)[:200], repr(want)[:200]))
             # output specification
-            r = uberjob.run(plan, output=t, max_workers=workers, progress=None)
+            try:
+                r = uberjob.run(plan, output=t, max_workers=workers, progress=None)
+            except Exception as e:  # noqa: BLE001
+                r = ("raised", repr(e))
             checked += 1
             if not _same(r, _spec(t, val)[1]) and len(bad) < 3:
                 bad.append(("output", repr(t)[:120], repr(r)[:200], repr(_spec(t, val)[1])[:200]))
+    # multi-step construction on ONE plan: a container is passed, mutated, and passed again (running-total pattern); every call must
+    # receive the shape the container had WHEN THE CALL WAS CREATED (plan.call gathers at call time, C02 is about each call's arguments)
+    plan = uberjob.Plan()
+    n1, n2, n3 = plan.call(lambda: "v1"), plan.call(lambda: "v2"), plan.call(lambda: "v3")
+    val = {id(n1): "v1", id(n2): "v2", id(n3): "v3"}
+
+    def g(*a, **k):
+        return ("G", a, tuple(k.items()))
+
+    steps = []
+    L, D, S, T = [n1], {"a": n1}, {n1}, ([n1], 0)
+    for extra in (None, n2, n3):
+        if extra is not None:
+            L.append(extra)
+            D[f"k{len(D)}"] = extra
+            S.add(extra)
+            T[0].append(extra)
+        for cont in (L, D, S, T):
+            steps.append((plan.call(g, cont, x=cont), _spec(cont, val)[1]))
+    for c, want in steps:
+        for workers in (1, 3):
+            try:
+                r = uberjob.run(plan, output=c, max_workers=workers, progress=None)
+            except Exception as e:  # noqa: BLE001
+                r = ("raised", repr(e))
+            checked += 1
+            ok = r[0] == "G" and len(r[1]) == 1 and _same(r[1][0], want) and len(r[2]) == 1 and r[2][0][0] == "x" and _same(r[2][0][1], want)
+            if not ok and len(bad) < 3:
+                bad.append(("multi-step", repr(want)[:120], repr(r)[:200]))
     ctx.check("bounded/every-call-received-exactly-the-substituted-arguments(order,names,identity,shape)", bool(not bad), info=f"{checked} runs; first mismatches: {bad}")
     ctx.check("bounded/nontrivial-number-of-cases", bool(checked > 300), info=str(checked))
     return "ok"
@@ -384,3 +419,41 @@ def run_gather_bounded(ctx):
 unit("plumbing.gather-roundtrip[bounded:depth<=2]", props=["C02"],
      functions=[(PL, "Plan._gather"), (PL, "Plan.call"), (GR, "get_argument_nodes"), (BI, "gather_list"), (BI, "gather_dict")],
      assumptions=["bounded stand-in: argument trees of depth <= 2, width <= 2"], min_obligations=2, kind="bounded")(run_gather_bounded)
+
+
+class _NativeCtx:
+    """stand-alone driver for the bounded round trip (native replay: prints the failing inputs found on the real code)"""
+
+    def __init__(self):
+        self.failed = []
+
+    def check(self, name, goal, info="", **kw):
+        if not goal:
+            self.failed.append((name, info))
+
+
+def native_gather_main():
+    import sys
+
+    c = _NativeCtx()
+    run_gather_bounded(c)
+    for name, info in c.failed:
+        print("C02 violated:", name, info[:1500])
+    print("ok" if not c.failed else "failed")
+    sys.exit(1 if c.failed else 0)
+
+
+GATHER_REPLAY_SCRIPT = "import sys; sys.path.insert(1, '/verif'); from contracts.plumbing import native_gather_main; native_gather_main()"
+
+
+def _replay_gather(ob):
+    import os
+    import subprocess
+
+    from ujvc.z3env import REPO_SRC
+
+    p = subprocess.run(["/venv/bin/python", "-c", GATHER_REPLAY_SCRIPT], env=dict(os.environ, PYTHONPATH=REPO_SRC), capture_output=True, text=True, timeout=600)
+    return {"reproduced": p.returncode == 1, "detail": (p.stdout + p.stderr)[-3000:], "script": GATHER_REPLAY_SCRIPT}
+
+
+REPLAYS = [("plumbing.gather*", _replay_gather), ("plumbing.Plan._call*", _replay_gather), ("argnodes.*", _replay_gather), ("gather.*", _replay_gather)]
